@@ -504,9 +504,10 @@ func timeModel(tag byte) xgen.Enum {
 	}
 }
 
-// modelSeedAssignments: quick = two certificates carrying every extension of
+// modelSeedAssignments: quick = one certificate carrying every extension of
 // the model at once + one certificate per curated well-formed alternative;
-// thorough = additionally every assignment with exactly one non-default field.
+// thorough = additionally a second all-extensions certificate (other
+// alternatives, RSA key) and every assignment with exactly one non-default field.
 func modelSeedAssignments(quick bool) []xgen.Assignment {
 	var out []xgen.Assignment
 	seen := map[string]bool{}
@@ -526,10 +527,12 @@ func modelSeedAssignments(quick bool) []xgen.Assignment {
 	add(all("keyusage", "valid", "basicconstraints", "pathlen-0", "skid", "valid", "akid", "issuer-serial", "san", "valid", "ian", "all-kinds",
 		"nameconstraints", "valid", "crldp", "two-names", "eku", "valid", "policies", "notices-bb", "aia", "valid", "sct", "two", "poison", "valid",
 		"qcstatements", "valid", "tor", "valid", "cabforgid", "with-state", "unknownext", "valid"))
-	add(all("key", "rsa", "validity", "generalized", "name", "multi-dv", "uids", "both", "selfissued", "no",
-		"keyusage", "critical", "basicconstraints", "valid", "skid", "valid", "akid", "valid", "san", "othername-ok", "ian", "valid",
-		"nameconstraints", "dir-ok", "crldp", "reasons-issuer", "eku", "any", "policies", "cps", "aia", "dns-location", "sct", "with-extensions",
-		"qcstatements", "limit-numeric", "tor", "onion-ia5", "cabforgid", "valid"))
+	if !quick {
+		add(all("key", "rsa", "validity", "generalized", "name", "multi-dv", "uids", "both", "selfissued", "no",
+			"keyusage", "critical", "basicconstraints", "valid", "skid", "valid", "akid", "valid", "san", "othername-ok", "ian", "valid",
+			"nameconstraints", "dir-ok", "crldp", "reasons-issuer", "eku", "any", "policies", "cps", "aia", "dns-location", "sct", "with-extensions",
+			"qcstatements", "limit-numeric", "tor", "onion-ia5", "cabforgid", "valid"))
+	}
 	curated := map[string][]string{
 		"keyusage":         {"valid", "9-bits", "critical"},
 		"basicconstraints": {"valid", "pathlen-0", "ca-false-explicit"},
@@ -589,7 +592,7 @@ func buildUnits(quick bool, cp *corpus) []unit {
 	asn := famTargets("asn1")
 	certT := famTargets("cert")
 	csrT := famTargets("csr")
-	prim3 := namedTargets("asn1.Unmarshal(int)", "asn1.Unmarshal(string)", "asn1.Unmarshal([]byte)", "asn1.Unmarshal(RawValue)", "asn1.Unmarshal(interface{})")
+	prim3 := namedTargets("asn1.Unmarshal(string)", "asn1.Unmarshal(RawValue)", "asn1.Unmarshal(interface{})")
 
 	// (a) G-bytes
 	for sh := 0; sh < 4; sh++ {
@@ -631,10 +634,17 @@ func buildUnits(quick bool, cp *corpus) []unit {
 	}
 	fixtureCerts := xgen.OfKind(cp.Repo, "cert")
 	var certSeeds []xgen.Seed
-	certSeeds = append(certSeeds, cp.Minted...)
 	if quick {
+		// minted CA + leaf for one key type per signature family (the P-224/384/521
+		// certificates have the same structure as P-256 and cost 3-10x as much to parse)
+		for _, s := range cp.Minted {
+			if strings.HasSuffix(s.Name, ":ed-minted") || strings.HasSuffix(s.Name, ":rsa1024") || strings.HasSuffix(s.Name, ":p256") {
+				certSeeds = append(certSeeds, s)
+			}
+		}
 		certSeeds = append(certSeeds, pick(fixtureCerts, "x509/testdata/etsi_qc", "x509/testdata/name.constraint", "x509/testdata/ian.test", "x509/testdata/dsa_pk")...)
 	} else {
+		certSeeds = append(certSeeds, cp.Minted...)
 		for _, s := range fixtureCerts {
 			if len(s.Data) <= 4096 {
 				certSeeds = append(certSeeds, s)
